@@ -22,7 +22,7 @@ RULE = ("seeded histories of 1-12 public Sequence operations (all mutators, over
         "while the other view was fresh and that other view was read afterwards.")
 PLAN = {"quick": {"cases": 3000, "jobs": 4, "timeout": 600},
         "thorough": {"cases": 200000, "jobs": 16, "timeout": 3000, "budget_s": 420}}
-MUTATORS = ["add_abs_cc", "add_abs_note", "add_rel_cc", "add_rel_wait", "add_rel_idx0", "pad", "set_channel", "overwrite_abs",
+MUTATORS = ["add_abs_cc", "add_abs_note", "add_abs_cap", "add_rel_cc", "add_rel_wait", "add_rel_idx0", "pad", "set_channel", "overwrite_abs",
             "overwrite_rel", "concatenate", "scale", "scale_q", "transpose", "normalise", "quantise", "qnl", "qan", "cutoff",
             "merge", "iter_abs_edit", "iter_rel_edit", "iter_abs_peek_edit", "iter_rel_peek_edit", "iter_abs_peek_edit_break",
             "iter_rel_peek_edit_break"]
@@ -56,6 +56,8 @@ def make_case(rng, i, tier):
         op = {"op": name, "s": rng.randrange(0, 4), "o": rng.randrange(0, 4)}
         if name in ("add_abs_cc", "add_abs_note"):
             op["t"] = rng.randrange(0, 90)
+        elif name == "add_abs_cap":
+            op["t"] = rng.choice([rng.randrange(0, 90), rng.randrange(90, 400)])
         elif name == "add_rel_wait":
             op["n"] = rng.randint(1, 30)
         elif name == "pad":
@@ -243,6 +245,10 @@ def run(case, ctx):
                     msg = cc(op["t"])
                     s.add_absolute_message(msg)
                     m.add_abs((op["t"],) + orc.fields(msg))
+                elif name == "add_abs_cap":
+                    # an end / bar marker, as detokenise places them: contributes duration only
+                    s.add_absolute_message(Message(message_type=MT.INTERNAL, time=op["t"]))
+                    m.pad(op["t"])
                 elif name == "add_abs_note":
                     a = Message(message_type=MT.NOTE_ON, channel=0, note=80 + step, velocity=40 + step, time=op["t"])
                     b = Message(message_type=MT.NOTE_OFF, channel=0, note=80 + step, time=op["t"] + 5)
